@@ -94,6 +94,30 @@ def run(ctx):
         for g in cz.all_graphs(n):
             evs.append(graph_event(g))
             graphs.append(g)
+    # 6..8 vertices: random graphs, and graphs chosen (by the harness, only as inputs) so that some cut block has a
+    # larger rank over the reals than over GF(2) - where integer / float linear algebra and GF(2) algebra part ways
+    def cut_ranks_differ(g, n):
+        a = nx.to_numpy_array(g, nodelist=range(n)).astype(int)
+        for k in range(1, n):
+            blk = a[:k, k:]
+            if np.linalg.matrix_rank(blk) != sg.gf2_rank([list(map(int, r)) for r in blk]):
+                return True
+        return False
+    for n in (6, 7, 8):
+        want = 8 if ctx.quick else 120
+        adv = rnd = 0
+        tries = 0
+        while (adv < want or rnd < want) and tries < 200000:
+            tries += 1
+            g = nx.gnp_random_graph(n, rng.choice([0.4, 0.5, 0.6, 0.7]), seed=rng.randrange(2 ** 31))
+            if cut_ranks_differ(g, n):
+                if adv < want:
+                    adv += 1
+                    evs.append(graph_event(g))
+            elif rnd < want:
+                rnd += 1
+                evs.append(graph_event(g))
+    ctx.extra["big_graph_height_events"] = sum(1 for e in evs if e["n"] >= 6)
     for n in (3, 4):
         pool = [g for g in graphs if g.number_of_nodes() == n]
         for _ in range(10 if ctx.quick else 60):
